@@ -95,7 +95,7 @@ func cmdFuncs(args []string) {
 		for _, i := range byName[n] {
 			ob, r := x.Obls[i], results[i]
 			if *dump != "" && strings.Contains(n, *dump) {
-				q := &Query{Assume: ob.Assume, Goal: ob.Goal}
+				q := buildQuery(ob)
 				x.instantiateSpecs(q, 2)
 				fmt.Println(q.SMT(nil, false))
 			}
